@@ -202,7 +202,7 @@ impl Exec {
             }
             "symver" => crate::sections::symver(self, op),
             "open" | "q" => crate::elffile::file_op(self, op),
-            "sopen" | "sq" => crate::stream::stream_op(self, op),
+            "sopen" | "sq" | "sbulk" => crate::stream::stream_op(self, op),
             other => panic!("harness: unknown op {other}"),
         }
     }
